@@ -460,7 +460,7 @@ class Interp:
             'itertools.permutations': itertools.permutations,
             'itertools.zip_longest': itertools.zip_longest,
             'operator.itemgetter': operator.itemgetter,
-            'copy.copy': lambda x: x if isinstance(x, (tuple, str, int)) else type(x)(x),
+            'copy.copy': self._copy_copy,
             'uuid.uuid4': lambda: _Uuid(self),
             'math.ceil': __import__('math').ceil,
             'math.log2': __import__('math').log2,
@@ -587,6 +587,21 @@ class Interp:
 
     _gen_cache: dict = {}
     _with_values: dict = {}
+
+    def _copy_copy(self, x):
+        """copy.copy: an instance of a repository class through its own __copy__ (folded), else a shallow copy of the attributes."""
+        if isinstance(x, Instance):
+            cls = object.__getattribute__(x, '_cls')
+            try:
+                f = self._class_attr(cls.mod, None, x, cls, '__copy__')
+            except AnalysisError:
+                f = None
+            if f is not None:
+                return f()
+            new = Instance(cls, self)
+            new._d.update(x._d)
+            return new
+        return x if isinstance(x, (tuple, str, int)) else type(x)(x)
 
     def _peek_host(self, mod, expr, env):
         v = self.eval(mod, expr, env)
